@@ -1,11 +1,20 @@
 #!/usr/bin/env python3
-"""Re-run every seeded change against the current checks (apply to /repo, check, undo) and
-refresh checks_reporting_it in each meta.json; write SEEDED.md."""
+"""Re-run every seeded change (or only those whose directory name contains one of the arguments) against the current
+checks (apply to /repo, check, undo) and refresh checks_reporting_it in each meta.json; write SEEDED.md from all meta.json."""
 import glob, json, os, subprocess, sys
 HERE = os.path.dirname(os.path.dirname(os.path.abspath(__file__)))
 rows = []
 for d in sorted(glob.glob(os.path.join(HERE, "seeded", "*"))):
     if not os.path.exists(os.path.join(d, "patch.diff")):
+        continue
+    only = [a for a in sys.argv[1:] if not a.startswith("-")]
+    if only and not any(o in os.path.basename(d) for o in only):
+        # not selected: table row from the stored meta.json
+        m = json.load(open(os.path.join(d, "meta.json")))
+        own = m["breaks_property"] in m.get("checks_reporting_it", {})
+        if m.get("own_check_expected_exit") == 2:
+            own = "no verdict" if m["breaks_property"] in m.get("checks_with_analysis_error", []) else False
+        rows.append((os.path.basename(d), m["breaks_property"], own, m))
         continue
     out = os.path.join(d, "result.json")
     p = subprocess.run([sys.executable, os.path.join(HERE, "tools", "try_seed.py"), d, "--keep-json", out],
